@@ -323,6 +323,7 @@ pub fn run(ctx: &Ctx) -> i32 {
         let (f, sh, to) = work[i];
         acc.distinct(&(f.name(), sh.name(), to.name()));
         let l = inproc(f, sh, to, thorough, acc);
+        acc.sample(json!({"format": f.name(), "shape": sh.name(), "to": to.name(), "deepest_accepted_depth": l, "document_at_depth_3": preview(&nested(f, sh, 3), 60)}));
         results.lock().unwrap().push((work[i], l));
         // real binaries: around the limit and far beyond, for this (format, shape, target)
         if let Some(l) = l {
